@@ -540,8 +540,8 @@ func (ge *GuardEngine) guardsRec(fn *ssa.Function, env *Env, chain []string, ctx
 			g.Op = negOp[op]
 		default:
 			g.Weak = true
-			if fi.isLoopTest(b) {
-				continue
+			if fi.isLoopTest(b) && (strings.HasPrefix(l, "idx") || strings.HasPrefix(l, "(idx") || strings.HasPrefix(l, "ok:next") || l == "next#0") {
+				continue // plain loop counter test
 			}
 		}
 		g.Ctx = append(append([]string{}, ctx...), ge.condCtx(fi, b, env)...)
@@ -811,6 +811,9 @@ func (ge *GuardEngine) siteProblems(g Guard, allowed []*regexp.Regexp) string {
 		}
 		if len(bad) > 0 {
 			return "guard can be bypassed — it is only evaluated when " + strings.Join(bad, " && ")
+		}
+		if g.Weak && st.Block == g.Block && st.Fn == g.Fn {
+			continue // a conjunct is by construction not on every path; its context was checked above
 		}
 		if path := ge.bypassPath(fi, st.Block, legit); path != "" {
 			return "guard can be bypassed — an accepting path avoids it: " + path
